@@ -5,7 +5,7 @@ from tools.props.dataset_units import DatasetLookupUnit
 
 class P(Property):
     id = "C18"
-    gen_targets = ["Registry", "DocTables", "Bundled"]
+    gen_targets = ["Registry", "DocTables", "Bundled", "Dispatch"]
     rule = "exhaustive: all 95 documented names x 2 spellings x 2 unpack flags, plus data-home and unknown-name cases; distinct = (name, unpack, env)"
 
     def units(self, tier):
